@@ -78,6 +78,12 @@ class NpProxy(types.ModuleType):
         return NpProxy.array(obj, dtype, *a, **k)
 
     @staticmethod
+    def arange(*a, **k):
+        if any(isinstance(x, S.SR) for x in a):
+            a = [S.sym_unique_value(x) if isinstance(x, S.SR) else x for x in a]
+        return np.arange(*a, **k)
+
+    @staticmethod
     def zeros(shape, dtype=float, *a, **k):
         if dtype in (int, np.int64, np.intp, bool, 'int'):
             return np.zeros(shape, dtype)
